@@ -9,7 +9,6 @@ import (
 	"go/constant"
 	"go/token"
 	"go/types"
-	"sort"
 	"strings"
 
 	"golang.org/x/tools/go/ssa"
@@ -417,6 +416,13 @@ func (ev *astEnv) eval(x ast.Expr) Value {
 		return ev.call(n)
 	case *ast.FuncLit:
 		panic(unsupported("function literal outside quantifier"))
+	case *ast.TypeAssertExpr:
+		// x.(T) in a contract: the dynamic value when it is known to have type T
+		v := ev.eval(n.X)
+		if iv, ok := v.(*IfaceV); ok && iv.Val != nil && iv.Typ != nil && types.Identical(iv.Typ, ev.typeOf(n)) {
+			return iv.Val
+		}
+		panic(unsupported("type assertion in contract on a value of unknown dynamic type"))
 	case *ast.CompositeLit:
 		t := ev.typeOf(n)
 		if st, ok := t.Underlying().(*types.Struct); ok {
@@ -660,6 +666,14 @@ func (ev *astEnv) call(n *ast.CallExpr) Value {
 			panic(unsupported("result index out of range in contract"))
 		}
 		return ev.results[k]
+	case "verif_rangeidx":
+		// number of completed iterations of the range loop whose invariant is being evaluated
+		if ev.loop != nil && ev.loop.rangeIdx != nil && ev.f != nil {
+			if pv, ok := ev.f.env[ev.loop.rangeIdx].(*PtrV); ok {
+				return c.Add(e.load(ev.s, pv.Ref).(*Term), BVConst(1, 64))
+			}
+		}
+		panic(unsupported("rangeidx outside the invariant of a range loop"))
 	case "verif_implies":
 		var a *Term
 		e.withPol(-e.pol, func() { a = ev.eval(n.Args[0]).(*Term) })
@@ -912,7 +926,18 @@ func (e *Exec) buildQuery(s *State, extra []*Term) (string, string) {
 	for _, t := range s.axioms {
 		add(t)
 	}
-	for _, t := range s.pc {
+	for i, t := range s.pc {
+		if e.uses != nil && i < len(s.pcTag) && strings.HasPrefix(s.pcTag[i], "inv") {
+			keep := false
+			for _, u := range e.uses {
+				if s.pcTag[i] == fmt.Sprintf("inv%d", u) {
+					keep = true
+				}
+			}
+			if !keep {
+				continue // hypothesis hidden on request of the contract ("uses"): fewer hypotheses is sound
+			}
+		}
 		add(t)
 	}
 	for _, t := range extra {
@@ -955,12 +980,16 @@ func (e *Exec) buildQuery(s *State, extra []*Term) (string, string) {
 	quants := append([]*Quant(nil), s.quants...)
 	nLight := len(asserts)
 	lightAsserts := append([]string(nil), asserts...)
-	for round := 0; round < 4; round++ {
+	for round := 0; round < 8; round++ {
 		progress := false
 		selIdx := e.selectIndices(asserts)
 		nq := len(quants)
+		usedSyms := c.Used(asserts)
 		for qi := 0; qi < nq; qi++ {
 			q := quants[qi]
+			if q.kind == quantInt && q.ph != nil && !usedSyms[q.ph.S] {
+				continue // the quantified fact does not occur in this query: nothing to instantiate
+			}
 			inst := func(t *Term, tag string) {
 				k := fmt.Sprintf("%d|%s|%s", q.id, tag, t.S)
 				if q.id == 0 {
@@ -1025,7 +1054,20 @@ func (e *Exec) buildQuery(s *State, extra []*Term) (string, string) {
 					inst(c.Sub(q.hi, BVConst(1, q.w)), "hi")
 				}
 			case quantIdx:
-				for _, t := range selIdx {
+				for si, t := range selIdx {
+					if len(q.arrays) > 0 {
+						// an axiom about the array q.arrays[0]: only indices at which that array (or an array
+						// derived from it) is read matter
+						rel := false
+						for _, a := range q.arrays {
+							if si < len(e.selRoots) && e.selRoots[si][a] {
+								rel = true
+							}
+						}
+						if !rel {
+							continue
+						}
+					}
 					inst(t, "i")
 				}
 			case quantIdxRel:
@@ -1070,26 +1112,45 @@ func (e *Exec) buildQuery(s *State, extra []*Term) (string, string) {
 }
 
 // selectIndices finds index terms of select applications in the assertions and the definitions they use.
+// selectIndices finds index terms of select applications in the assertions and the definitions they use.
+// For every index it also records the root symbols of the array expressions it is applied to.
 func (e *Exec) selectIndices(asserts []string) []*Term {
 	c := e.c
-	seen := map[string]bool{}
+	seen := map[string]int{}
 	var out []*Term
+	e.selRoots = e.selRoots[:0]
 	visitedDefs := map[string]bool{}
+	rootCache := map[string]map[string]bool{}
+	rootsOf := func(arr string) map[string]bool {
+		if r, ok := rootCache[arr]; ok {
+			return r
+		}
+		r := c.Used([]string{arr})
+		rootCache[arr] = r
+		return r
+	}
 	var scan func(s string)
 	scan = func(s string) {
 		for i := 0; i+8 < len(s); i++ {
 			if strings.HasPrefix(s[i:], "(select ") {
-				// skip array term
 				j := i + 8
+				a0 := j
 				j = skipSexp(s, j)
+				arr := s[a0:j]
 				for j < len(s) && s[j] == ' ' {
 					j++
 				}
 				k := skipSexp(s, j)
 				idx := s[j:k]
-				if !seen[idx] {
-					seen[idx] = true
+				n, ok := seen[idx]
+				if !ok {
+					n = len(out)
+					seen[idx] = n
 					out = append(out, &Term{S: idx, Sort: SBV(64)})
+					e.selRoots = append(e.selRoots, map[string]bool{})
+				}
+				for sym := range rootsOf(arr) {
+					e.selRoots[n][sym] = true
 				}
 			}
 		}
@@ -1109,9 +1170,9 @@ func (e *Exec) selectIndices(asserts []string) []*Term {
 	for _, a := range asserts {
 		scan(a)
 	}
-	sort.Slice(out, func(i, j int) bool { return out[i].S < out[j].S })
-	if len(out) > 300 {
-		out = out[:300]
+	if len(out) > 400 {
+		out = out[:400]
+		e.selRoots = e.selRoots[:400]
 	}
 	return out
 }
